@@ -43,6 +43,7 @@ type Case struct {
 	Features uint64 `json:"features"`
 	Origin   string `json:"origin"`
 	Valid    bool   `json:"valid_by_construction"`
+	Known    bool   `json:"known_finding_input,omitempty"` // the dedicated re-run of an open finding's input: class exclusions do not apply
 }
 
 var (
@@ -246,8 +247,29 @@ const allocBase = 64 << 20
 
 // hugeLocals reports whether a function body in the code section declares more than 1<<16
 // locals in total (class of the known finding C03-locals-expansion).
-func hugeLocals(b []byte) bool {
-	secs, _ := splitSections(b)
+func hugeLocals(b []byte) bool { return maxLocals(b) > 1<<16 }
+
+// maxLocals returns the largest number of locals any code entry declares.
+func maxLocals(b []byte) uint64 {
+	var most uint64
+	secs, complete := splitSections(b)
+	if !complete {
+		// a final section whose declared size exceeds the input: the decoder still decodes its
+		// entries one by one before it notices
+		p := 8
+		for _, s := range secs {
+			p += 1 + len(leb(uint64(len(s.payload)))) + len(s.payload)
+		}
+		if p+2 <= len(b) && b[p] == 10 {
+			q := p + 1
+			for q < len(b) && b[q]&0x80 != 0 {
+				q++
+			}
+			if q+1 <= len(b) {
+				secs = append(secs, section{10, b[q+1:]})
+			}
+		}
+	}
 	for _, s := range secs {
 		if s.id != 10 {
 			continue
@@ -286,13 +308,13 @@ func hugeLocals(b []byte) bool {
 				p = p[1:]
 				sum += c
 			}
-			if sum > 1<<16 {
-				return true
+			if sum > most {
+				most = sum
 			}
 			p = rest
 		}
 	}
-	return false
+	return most
 }
 
 type result struct {
@@ -306,6 +328,14 @@ var abandoned int
 
 // RunCase applies all oracles to one input.
 func RunCase(c *Case) (r result) {
+	if !c.Known && maxLocals(c.Input) > 1<<18 {
+		// class of the open finding C03-locals-expansion, excluded by construction: compiling such
+		// an input can take GiBs (the process may be killed); its specific input is re-run by
+		// TestKnownLocalsExpansion
+		r.labels = append(r.labels, "excluded-known-locals-expansion")
+		evid.Label("excluded-known-locals-expansion", 1)
+		return
+	}
 	ctx := context.Background()
 	feats := api.CoreFeatures(c.Features)
 	for _, eng := range wz.Engines {
@@ -907,7 +937,7 @@ func TestKnownLocalsExpansion(t *testing.T) {
 	in = append(in, 10)
 	in = append(in, leb(uint64(len(code)))...)
 	in = append(in, code...)
-	c := &Case{Input: in, Features: uint64(api.CoreFeaturesV2), Origin: "known:locals-expansion"}
+	c := &Case{Input: in, Features: uint64(api.CoreFeaturesV2), Origin: "known:locals-expansion", Known: true}
 	r := RunCase(c)
 	switch {
 	case r.finding != "":
